@@ -927,6 +927,9 @@ pub fn install_panic_hook() {
         };
         let loc = info.location().map(|l| format!("{}:{}", l.file(), l.line())).unwrap_or_default();
         let line = format!("{msg} @ {loc}");
+        if crate::io::capture_panic_message(&line) {
+            return;
+        }
         if is_sim_thread() {
             // the panicking thread holds the baton
             unsafe {
